@@ -16,6 +16,7 @@ RULE = ('explicit: all routing rules of length 1 and 2 over fields {name, table,
 P = 'acme.route.v1'
 Q = lambda n: f'.{P}.{n}'
 FIELDS = ['name', 'table', 'app.name']
+SIG = 'name,table,app,outer,payload'      # every method also offers its request fields as flattened keyword arguments
 TEMPLATES = ['', '{K=*}', '{K=**}', 'lit/{K=*}', '{K=lit/*}/**', 'lit/{K=*}/lit', '{K=lit/*/lit/*}', 'lit/{K=**}']
 
 IMPLICIT = [  # (id, verb, uri, body)
@@ -67,9 +68,11 @@ def build(rule_chunk, chunk_id, with_implicit):
     meths, cells = [], []
     for i, rule in enumerate(rule_chunk):
         rpc = f'R{chunk_id}x{i}'
-        meths.append(method(rpc, Q('RouteReq'), Q('Resp'), http=('post', f'/v1/r/{chunk_id}/{i}', '*'), routing=rule))
+        # the empty annotation sits on a method whose path *has* variables: no implicit fallback may happen
+        http = ('post', f'/v1/r/{chunk_id}/{i}', '*') if rule else ('post', f'/v1/{{name=shelves/*}}/r/{chunk_id}/{i}', '*')
+        meths.append(method(rpc, Q('RouteReq'), Q('Resp'), http=http, routing=rule, sigs=[SIG]))
         cells.append(dict(id='explicit/' + ';'.join(f'{f}~{t}' for f, t in rule), rpc=rpc, py=names.py_method(rpc),
-                          kind='explicit', params=rule))
+                          kind='explicit', params=rule, kwargs=True))
     svcs = [service('Route', meths)]
     if with_implicit:
         im = []
@@ -78,13 +81,14 @@ def build(rule_chunk, chunk_id, with_implicit):
             http = (verb, uri, body, [('get', '/v1/{table=tables/*}/y')]) if cid == 'additional' else (verb, uri, body)
             if verb == 'custom':
                 http = ('custom', ('HEAD', uri))
-            im.append(method(rpc, Q('RouteReq'), Q('Resp'), http=http))
+            im.append(method(rpc, Q('RouteReq'), Q('Resp'), http=http, sigs=[SIG] if cid != 'reserved' else ()))
             im.append(method(rpc + 'Stream', Q('RouteReq'), Q('Resp'), ss=True,
                              http=(verb, uri.replace('/v1/', '/v1/stream/'), body) if verb != 'custom' else ('custom', ('HEAD', uri.replace('/v1/', '/v1/stream/')))))
             for suffix in ('', 'Stream'):
                 cells.append(dict(id=f'implicit/{cid}{"/stream" if suffix else ""}', rpc=rpc + suffix,
                                   py=names.py_method(rpc + suffix), kind='implicit', uri=uri, verb=verb, body=body,
-                                  vars=routing.path_variables(uri), stream=bool(suffix), service='Implicit', no_rest=(verb == 'custom')))
+                                  vars=routing.path_variables(uri), stream=bool(suffix), service='Implicit', no_rest=(verb == 'custom'),
+                                  kwargs=(cid != 'reserved' and not suffix)))
         svcs.append(service('Implicit', im))
     f = file('acme/route/v1/route.proto', P, messages=msgs, services=svcs)
     req = request([f], 'transport=grpc+rest,autogen-snippets=false')
